@@ -184,6 +184,11 @@ def check(ctx):
     ctx.attempt(common.clause_purity, [f for f in ctx.repo.funcs.values() if f.module.name.endswith(('trs.trs','tract.tract','plssdesc.plss_parse'))])
     ctx.attempt(common.parallel_shapes, [f for f in ctx.repo.funcs.values() if f.module.name.endswith(('trs.trs','tract.tract','plssdesc.plss_parse'))])
     ctx.attempt(common.error_check_covers_all, ctx.repo.func('PLSSParser.check_error_tracts'))
+    ctx.attempt(_wording_flags_on_every_path)
+    from .c04 import scrubber_wildcards     # wording deleted by the preprocessor can raise no warning
+    ctx.attempt(scrubber_wildcards, why="the wording that the wildcard deletes after a Twp/Rge (up to that many characters before a "
+                                        "P.M. designation) is gone before the warning patterns see it: 'less and except', 'wellbore', "
+                                        "'insofar' there raise no flag and the description parses as clean")
     ctx.attempt(seed_guard)
     ctx.attempt(common.config_words, plss=('parse_qq',))
 
@@ -484,3 +489,35 @@ def _tract_sharing(ctx):
     ctx.check({'w_flags', 'w_flag_lines', 'e_flags', 'e_flag_lines', 'tracts'} <= set(unp), 'TBL',
               'PLSSParser.UNPACKABLES carries tracts and the four flag lists back to the PLSSDesc',
               detail_bad=f"UNPACKABLES = {unp}", key="TBL|PLSSParser.UNPACKABLES|flags")
+
+
+def _wording_flags_on_every_path(ctx):
+    """The wording warnings (well / depth / including / less_except / insofar)
+    come from ChunkParser.gen_flags_chunk().  In whichever method it is
+    called, every `return` of that method must come after the call: an early
+    return in front of it (the copy_all branch of parse_chunk) leaves a whole
+    class of descriptions without these warnings."""
+    from .forward import _dominates
+    ci = ctx.repo.cls('plss_parse:ChunkParser')
+    sites = []
+    for m in ci.methods.values():
+        for c in walk_local(m.node):
+            if isinstance(c, ast.Call) and norm(c.func) == 'self.gen_flags_chunk':
+                sites.append((m, c))
+    construct = 'ChunkParser: gen_flags_chunk() runs for every chunk'
+    if not sites:
+        ctx.violation('SINK', construct, 'gen_flags_chunk() is never called: no wording warning can be raised',
+                      key='SINK|ChunkParser|gen_flags_chunk|never')
+        return
+    for m, c in sites:
+        early = [r for r in walk_local(m.node) if isinstance(r, ast.Return) and not _dominates(c, r, m.node)
+                 and r.lineno < c.lineno]
+        cond = bool(guards(c))
+        ctx.check(not early and not cond, 'SINK', construct + f" (called in {m.qualname})",
+                  detail_bad=(f"{m.qualname} returns at line {early[0].lineno} before it reaches `self.gen_flags_chunk()` "
+                              f"(line {c.lineno}): chunks that leave through that return - the copy_all branch: a dictated "
+                              f"copy_all layout, text with no section or no Twp/Rge - get none of the well / depth / "
+                              f"including / less_except / insofar warnings") if early else
+                             f"`self.gen_flags_chunk()` runs only under {[norm(t) for t, _ in guards(c)]}",
+                  key=f"SINK|ChunkParser|gen_flags_chunk|{'early-return' if early else 'conditional'}",
+                  where=common.loc(m, early[0] if early else c))
